@@ -26,6 +26,8 @@ def run_property(pid, root, tier, overrides=None, quiet=False, write_evidence=Tr
     ctx = Ctx(pid, repo, tier=tier, quiet=quiet, known=known)
     ctx.res = Resolver(repo)
     mod.run(ctx)
+    from .rules import total
+    ctx.run(pid + ".TOTAL", "R-DEFUSE", total.total)
     if tier == "thorough" and overrides is None:
         from . import thorough
         ctx.extra = thorough.run_extras(ctx, pid, load)
